@@ -297,3 +297,38 @@ func HarnessCancelVsCall() {
 	verif.Quiesce()
 	verif.Reach("cancel-vs-call-done")
 }
+
+// HarnessPeerPings: the peer sends WebSocket pings at arbitrary instants while
+// the server is writing responses and channel values. Whatever the library
+// does in reaction to a ping is serialised with its other writes: every data
+// message stays complete, no write bypasses the write lock.
+func HarnessPeerPings() {
+	h := &H{release: make(chan struct{})}
+	srv := jsonrpc.NewServer(jsonrpc.WithServerPingInterval(time.Second))
+	srv.Register("H", h)
+	pc := verif.DialRaw(srv, nil)
+	pc.Send([]byte(`{"jsonrpc":"2.0","id":1,"method":"H.Stream","params":[1]}`))
+	pc.Send([]byte(`{"jsonrpc":"2.0","id":2,"method":"H.Unary","params":[5]}`))
+	go func() {
+		verif.AtStep("ping_at", verif.Bound("steps", 12))
+		pc.SendPing()
+		verif.AtStep("ping2_at", 2)
+		pc.SendPing()
+	}()
+	want := 2 + 1 + 1 // two responses, one value, one close
+	for got := 0; got < want; got++ {
+		b, ok := pc.Recv()
+		verif.Assert(ok, "connection-stays-up")
+		if !ok {
+			break
+		}
+		var f anyFrame
+		verif.Assert(json.Unmarshal(b, &f) == nil && f.Jsonrpc == "2.0", "every-message-is-one-complete-json-rpc-frame")
+	}
+	verif.Quiesce()
+	monitors("")
+	verif.Assert(verif.TornMessages() == 0, "control-frames-never-tear-a-message")
+	pc.CloseGraceful()
+	verif.Quiesce()
+	verif.Reach("peer-pings-done")
+}
